@@ -2,7 +2,7 @@
 (* T-mode for relational properties: reads composite events recorded from the REAL code (vh events) and
    evaluates the property's relation on the observed values.  Every event is independent; a verdict other
    than "ok" is collected with the index of the event; bin/check turns it into a replay file. *)
-EXTENDS UrlInvariants, Json
+EXTENDS Options, Json
 CONSTANT TraceFile
 Trace == ndJsonDeserialize(TraceFile)
 VARIABLES l, bad
@@ -59,7 +59,76 @@ CheckWs(e) == Verdicts(<<
     <<"a read-only call wrote shared state", {e.writes[i] : i \in 1..Len(e.writes)} = CP!WritesOf(e.call)>>
   >>)
 
+(* ---------------- C16: one option configuration vs the default parser ---------------- *)
+OtherKeys == {"protocol", "username", "password", "host", "hostname", "port", "pathname", "hash"}
+NoBadPct(s) == \A i \in 1..Len(s) : s[i] = 37 => IsPctTriple(s, i)
+NoEmptyInnerSegment(path) == ~\E i \in 1..(Len(path) - 1) : path[i] = 47 /\ path[i + 1] = 47
+CheckOpt(e) ==
+  LET base == IF e.bs = <<>> THEN None ELSE Some(Parse(e.bs[1], None, None).u)
+      r == Parse(e.in, base, None)                                  \* the specification's default run
+      specAgrees == r.asked = None /\ (r.res = "fail") = e.d.fail /\ (r.res = "ok" => Getters(r.u) = e.d.g)
+      n == e.opt
+  IN Verdicts(<<
+    <<"crash", ~(Crashed(e.d) \/ Crashed(e.o))>>,
+    <<"a parser / profile built without options differs from the default parser", n \notin {"newparser", "canon_none"} \/ SameRes(e.o, e.d)>>,
+    <<"neutrality: the option changed the result of an input that does not contain its trigger",
+        n \notin NeutralOptions \/ Trigger(n, e.in, e.bs) \/ SameRes(e.o, e.d)>>,
+    <<"lax host parsing changed an input whose host the default parser accepts", n # "lax_host" \/ (e.d.fail /\ e.d.err \in HostErrors) \/ SameRes(e.o, e.d)>>,
+    <<"exact: result differs from the specification run with the option record",
+        n \notin ExactOptions \/ ~specAgrees \/
+          LET ob == IF e.bs = <<>> THEN None ELSE Some(ParseO(e.bs[1], None, None, OptsOf(n)).u)
+              x == ParseO(e.in, ob, None, OptsOf(n))
+          IN x.asked # None \/ ((x.res = "fail") = e.o.fail /\ (x.res = "ok" => GettersO(OptsOf(n), x.u) = e.o.g))>>,
+    <<"remove-*: result is not the default result with the standard's setters applied",
+        n \notin SetterOptions \/ ~specAgrees \/ (e.o.fail = e.d.fail /\ (~e.d.fail => e.o.g = Getters(CanonSetters(n, r.u))))>>,
+    <<"remove-*: postcondition (no credentials / no port / no fragment) violated",
+        n \notin SetterOptions \/ e.o.fail \/
+          (/\ (n \in {"remove_userinfo", "canon:remove_userinfo+remove_port+remove_fragment"} => e.o.g.username = <<>> /\ e.o.g.password = <<>>)
+           /\ (n \in {"remove_port", "canon:remove_userinfo+remove_port+remove_fragment"} => e.o.g.port = <<>>)
+           /\ (n \in {"remove_fragment", "canon:remove_userinfo+remove_port+remove_fragment"} => e.o.g.hash = <<>> /\ e.o.g.href = e.o.g.hrefnf))>>,
+    <<"sort-query: parameters are not the stable sort of the default's parameters, or another component changed",
+        n \notin {"sort_keys", "sort_param"} \/
+          (e.o.fail = e.d.fail /\ (~e.d.fail => /\ e.op = (IF n = "sort_keys" THEN SortByName(e.dp) ELSE SortByBoth(e.dp))
+                                                 /\ \A k \in OtherKeys : e.o.g[k] = e.d.g[k]))>>,
+    <<"default-scheme: wrong result",
+        n # "default_scheme" \/
+          (IF e.bs = <<>> /\ e.d.fail /\ e.d.err = "MissingSchemeNonRelativeURL" THEN SameRes(e.o, e.alt) ELSE SameRes(e.o, e.d))>>,
+    <<"default-scheme: the specification fails elsewhere than the no-scheme state although the code reports a missing scheme",
+        n # "default_scheme" \/ e.bs # <<>> \/ ~e.d.fail \/ e.d.err # "MissingSchemeNonRelativeURL" \/ (r.res = "fail" /\ r.failAt = "noScheme")>>,
+    <<"collapse: an empty non-final segment is left in a special URL's path", n # "collapse" \/ e.o.fail \/ ~e.o.g.special \/ NoEmptyInnerSegment(e.o.g.pathname)>>,
+    <<"single-percent: a '%' not followed by two hex digits is left in the path", n # "single_pct" \/ e.o.fail \/ NoBadPct(e.o.g.pathname)>>,
+    <<"special-schemes: the added scheme is not treated as special / default port not elided",
+        n # "special_gopher" \/ e.o.fail \/ e.o.g.scheme # GOPHER \/ (e.o.g.special /\ e.o.g.port # <<55, 48>> /\ e.o.g.pathname # <<>>)>>
+  >>)
+
+(* ---------------- C17: canonical output is a fixed point ---------------- *)
+(* F03 (the SearchParams serializer leaves % & + = unescaped) makes query-rewriting profiles non-idempotent exactly
+   when the form-urlencoded parse of the first output's query has a name or value containing one of those characters *)
+HasDelimCp(s) == \E i \in 1..Len(s) : s[i] \in {37, 38, 43, 61}
+QueryHasDelims(q) == LET lst == ParseQ(q) IN \E i \in 1..Len(lst) : HasDelimCp(lst[i][1]) \/ HasDelimCp(lst[i][2])
+(* F14 (skip-equals serializes an empty-name/empty-value pair as nothing): the first output's query has an empty item *)
+QueryHasEmptyItem(q) == q # <<>> /\ \E i \in 1..Len(Split(q, 38)) : Split(q, 38)[i] = <<>>
+CheckIdem(e) ==
+  Verdicts(<<
+    <<"crash", ~(Crashed(e.y) \/ Crashed(e.z))>>,
+    <<IF ~e.y.fail /\ QueryHasDelims(e.y.g.query) THEN "not idempotent [query has a name/value with % & + =]"
+      ELSE IF ~e.y.fail /\ QueryHasEmptyItem(e.y.g.query) THEN "not idempotent [query has an empty item]"
+      ELSE "not idempotent",
+      e.y.fail \/ (~e.z.fail /\ e.z.g.href = e.y.g.href)>>
+  >>)
+
+(* ---------------- C18: equivalent spellings canonicalize identically ---------------- *)
+CheckClass(e) ==
+  Verdicts(<<
+    <<"crash", ~\E i \in 1..Len(e.outs) : Crashed(e.outs[i])>>,
+    <<"spellings of one URL canonicalize differently",
+        \A i \in 1..Len(e.outs) : e.outs[i].fail = e.outs[1].fail /\ (~e.outs[1].fail => e.outs[i].g.href = e.outs[1].g.href)>>
+  >>)
+
 Check(e) == CASE e.k = "law" -> CheckLaw(e)
+              [] e.k = "opt" -> CheckOpt(e)
+              [] e.k = "idem" -> CheckIdem(e)
+              [] e.k = "class" -> CheckClass(e)
               [] e.k = "ws" -> CheckWs(e)
               [] e.k = "diag" -> CheckDiag(e)
               [] OTHER -> <<"unknown event kind">>
